@@ -365,7 +365,7 @@ def run_manual(sh, maxlen):
 
     clock = vclock.install()
     from clikit.api.io.output import Output
-    from clikit.formatter import AnsiFormatter
+    from clikit.formatter import AnsiFormatter, PlainFormatter
     from clikit.io.output_stream import BufferedOutputStream
     from clikit.ui.components import ProgressIndicator
 
@@ -380,35 +380,70 @@ def run_manual(sh, maxlen):
 
     OPS = ["start", "advance", "advance", "msg", "finish"]
     STEPS_MS = [0, 50, 99, 100, 250]
+    # (format given explicitly or chosen by the component, verbosity of the output, decorated, indicator values, interval ms)
+    BRAILLE = ["⠋", "⠙", "⠹", "⠸", "⠼", "⠴", "⠦", "⠧"]
+    VARIANTS = [("explicit", 0, True, None, 100)]
+    for verbosity in (0, 1, 2, 4):
+        for decorated in (True, False):
+            VARIANTS.append(("chosen", verbosity, decorated, None, 100))
+    VARIANTS += [("chosen", 0, True, BRAILLE, 100), ("explicit", 1, True, ["ab", "cd", "ef"], 250), ("chosen", 2, True, ["<", ">"], 50), ("explicit", 0, True, BRAILLE, 0)]
+    TEXTS = {"start-msg": "start-msg", "end-msg": "end-msg"}
     rng = sh.rng
+    seqno = 0
     for n in range(1, maxlen + 1):
         for ops in itertools.product(range(len(OPS)), repeat=n):
             clocks = [rng.choice(STEPS_MS) for _ in ops]
+            seqno += 1
+            how, verbosity, decorated, values, interval = VARIANTS[seqno % len(VARIANTS)] if seqno % 3 else VARIANTS[0]
+            styled = seqno % 5 == 0  # messages wrapped in a style tag, as applications usually pass them
             st = Rec()
-            pi = ProgressIndicator(Output(st, AnsiFormatter(forced=True)), fmt=" {indicator} {message}", interval=100)
-            started = False
+            out = Output(st, AnsiFormatter(forced=True) if decorated else PlainFormatter())
+            out.set_verbosity(verbosity)
+            kw = {"interval": interval}
+            if how == "explicit":
+                kw["fmt"] = " {indicator} {message}"
+            if values is not None:
+                kw["values"] = list(values)
+            pi = ProgressIndicator(out, **kw)
+            allowed = list(values) if values is not None else VALUES
+            shows_indicator = decorated or how == "explicit"
+            sh.tag("manual_variant", "%s/v%d/%s/%s/%d" % (how, verbosity, "ansi" if decorated else "plain", "default" if values is None else "".join(values)[:4], interval))
+            started = ever_started = False
             msgs = set()
             cur = None
             last_redraw = None
-            record = {"kind": "manual", "ops": [OPS[i] for i in ops], "clocks_ms": clocks}
-            sh.case(("manual", ops, tuple(clocks)), n >= 3)
+            record = {"kind": "manual", "ops": [OPS[i] for i in ops], "clocks_ms": clocks, "format": how, "verbosity": verbosity, "decorated": decorated,
+                      "values": values, "interval_ms": interval, "styled_messages": styled}
+            sh.case(("manual", ops, tuple(clocks), seqno % len(VARIANTS) if seqno % 3 else 0, styled), n >= 3)
             bad = False
+
+            def wrap(m):
+                return "<info>%s</info>" % m if styled else m
+
             for i, c in zip(ops, clocks):
                 clock.advance(c / 1000.0)
                 op = OPS[i]
                 n0 = len(st.ev)
                 try:
                     if op == "start":
-                        pi.start("start-msg")
+                        pi.start(wrap("start-msg"))
                         cur = "start-msg"
                     elif op == "advance":
                         pi.advance()
                     elif op == "msg":
                         cur = "msg-%d" % len(msgs)
-                        pi.set_message(cur)
+                        pi.set_message(wrap(cur))
                     else:
-                        pi.finish("end-msg")
+                        pi.finish(wrap("end-msg"))
                         cur = "end-msg"
+                except TypeError:
+                    # set_message() before the first start() with a format that shows the elapsed time fails on the missing
+                    # start time: a call outside the property (nothing has been started), counted, not judged
+                    if op == "msg" and not ever_started and how == "chosen" and verbosity >= 1:
+                        sh.count("manual_set_message_before_start_with_elapsed")
+                        cur = None
+                        continue
+                    raise
                 except RuntimeError:
                     # documented misuse errors (not started / already started)
                     if (op == "start") == started:
@@ -417,7 +452,7 @@ def run_manual(sh, maxlen):
                     bad = True
                     break
                 if op == "start":
-                    started = True
+                    started = ever_started = True
                 elif op == "finish":
                     started = False
                 msgs.add(cur)
@@ -425,20 +460,38 @@ def run_manual(sh, maxlen):
                 text = "".join(x for _, x in new)
                 if op == "advance" and new:
                     now = clock.now
-                    if last_redraw is not None and (now - last_redraw) * 1000 < 100 - 1e-6:
-                        sh.violate("manual-interval", record, "advance redrew %.0f ms after the previous advance-redraw (interval 100 ms)" % ((now - last_redraw) * 1000))
+                    if last_redraw is not None and (now - last_redraw) * 1000 < interval - 1e-6:
+                        sh.violate("manual-interval", record, "advance redrew %.0f ms after the previous advance-redraw (interval %d ms)" % ((now - last_redraw) * 1000, interval))
                         bad = True
                         break
                 if op in ("advance", "start") and new:
                     last_redraw = clock.now
                 if new:
                     sh.count("manual_frames")
+                    if "\x1b" in text and not decorated:
+                        sh.violate("manual-frame", record, "undecorated output received an escape sequence: %r" % text[:60])
+                        bad = True
+                        break
                     t = Term(200)
                     t.feed("".join(x for _, x in st.ev))
                     line = t.current_line() if not text.endswith("\n") else (t.screen()[-1] if t.screen() else "")
-                    m = FRAME.match(line)
-                    if not m or m.group(1) not in VALUES or m.group(2) != cur:
-                        sh.violate("manual-frame", record, "after %s the line is %r, expected one indicator value and the current message %r" % (op, line, cur))
+                    # one frame: [indicator value] current message [(elapsed time) in the verbose formats the component chooses]
+                    body = line.strip()
+                    ok = True
+                    if shows_indicator:
+                        v = next((v for v in allowed if body.startswith(v + " ")), None)
+                        ok = v is not None
+                        body = body[len(v) + 1:] if ok else body
+                    if ok:
+                        if body == cur:
+                            pass
+                        elif how == "chosen" and verbosity >= 1 and body.startswith(cur + " (") and body.endswith(")"):
+                            sh.count("manual_frames_with_elapsed")
+                        else:
+                            ok = False
+                    if not ok:
+                        sh.violate("manual-frame", record, "after %s the line is %r, expected %s the current message %r" % (
+                            op, line, "one of the indicator values %r and" % (allowed,) if shows_indicator else "", cur))
                         bad = True
                         break
             if bad:
